@@ -14,6 +14,7 @@ import (
 	"sync"
 	"sync/atomic"
 	"testing"
+	"time"
 )
 
 type planner struct {
@@ -64,8 +65,8 @@ func countPartials(dir, mode string) int {
 	return max(1, n)
 }
 
-var softLeftovers = []string{"tmp", "dot", "unrelated", "epdir", "symlink"}                // the tool goes on
-var hardLeftovers = []string{"ptmp", "pfile", "badwidth", "missing", "empty", "highlevel"} // the tool may give up
+var softLeftovers = []string{"tmp", "dot", "unrelated", "epdir", "symlink"}                           // the tool goes on
+var hardLeftovers = []string{"ptmp", "pfile", "badwidth", "missing", "empty", "highlevel", "tiledot"} // the tool may give up
 
 func (p *planner) decorate(sc *Scenario, t *Target, rng *rand.Rand, variant string) {
 	switch variant {
@@ -365,6 +366,7 @@ func TestAftersun(t *testing.T) {
 	if bin == "" || outp == "" || work == "" {
 		t.Skip("VERIF_AFTERSUN_BIN, VERIF_OUT, VERIF_WORK not set")
 	}
+	start := time.Now()
 	check(os.MkdirAll(work, 0o755))
 	f := must(os.Create(outp))
 	defer f.Close()
@@ -398,7 +400,11 @@ func TestAftersun(t *testing.T) {
 			stops = s2
 		}
 		paths.Add(1)
-		go func(i int) { defer paths.Done(); p.seqPath(i, stops, 70, variants, ps) }(i)
+		go func(i int) {
+			defer paths.Done()
+			p.seqPath(i, stops, 70, variants, ps)
+			fmt.Printf("TIMING small path %d done at %.1fs\n", i, time.Since(start).Seconds())
+		}(i)
 	}
 	for i := 0; i < nLarge; i++ {
 		lr := rand.New(rand.NewSource(rng.Int63()))
@@ -407,7 +413,11 @@ func TestAftersun(t *testing.T) {
 			stops = []int64{20000 + lr.Int63n(20000), 65535 + lr.Int63n(3), 65792 + lr.Int63n(3) - 1}
 		}
 		paths.Add(1)
-		go func(i int) { defer paths.Done(); p.seqPath(100+i, stops, 4000, variants, perStop+1) }(i)
+		go func(i int) {
+			defer paths.Done()
+			p.seqPath(100+i, stops, 4000, variants, perStop+1)
+			fmt.Printf("TIMING large path %d done at %.1fs\n", i, time.Since(start).Seconds())
+		}(i)
 	}
 	sr := rand.New(rand.NewSource(rng.Int63()))
 	for i, n := range sparseSizes(sr, nSparse) {
@@ -417,7 +427,9 @@ func TestAftersun(t *testing.T) {
 	for i := 0; i < nMirror+nMirrorLarge; i++ {
 		p.mirror(i, rand.New(rand.NewSource(mr.Int63())), i >= nMirror)
 	}
+	fmt.Printf("TIMING sparse and mirror submitted at %.1fs\n", time.Since(start).Seconds())
 	paths.Wait()
+	fmt.Printf("TIMING paths done at %.1fs\n", time.Since(start).Seconds())
 	p.wg.Wait()
 	fmt.Printf("AFTERSUN-DONE scenarios=%d records=%d errors=%d\n", p.count.Load(), p.r.Records, len(p.r.Errors))
 }
